@@ -4,6 +4,7 @@ package reftable
 
 import (
 	"bytes"
+	"compress/zlib"
 	"encoding/binary"
 	"hash/crc32"
 	"math"
@@ -264,4 +265,44 @@ func Harness_C18_file_index() {
 		p += n3
 	}
 	readEverythingKey(data, symString(2))
+}
+
+// Harness_C18_file_logbomb: a log block whose deflate stream inflates to far more than the size its header declares is refused without inflating it all (allocation stays proportional to the file and to the declared block size).
+// bounds: the base table with a log section, its log block replaced by: block header 'g' with declared size in {its true size, 6, 40, 1000, 0xFFFFFF}, followed by a genuine deflate stream of 4 MiB of zero bytes (about 4 KiB) or by the genuine stream of the original block; the file header's block size is the original one or 0xFFFFFF (so that one fetch covers the stream); every read entry point; allocation budget 1 MiB + 8 x (file size + declared size)
+// assumes: real zlib on both sides (the stream is concrete)
+// covers: opened
+func Harness_C18_file_logbomb() {
+	data := hostileBase(2)
+	version := int(data[4])
+	fo := len(data) - footerSize(version)
+	logOff := int(binary.BigEndian.Uint64(data[fo+headerSize(version)+24:]))
+	VerifAssert(logOff > 0 && logOff < fo, "base-has-log-section")
+	orig := append([]byte{}, data[logOff:fo]...)
+	trueSize := int(orig[1])<<16 | int(orig[2])<<8 | int(orig[3])
+	var stream []byte
+	if VerifChoose(2) == 0 {
+		var zb bytes.Buffer
+		zw, _ := zlib.NewWriterLevel(&zb, 9)
+		zw.Write(make([]byte, 4<<20))
+		zw.Close()
+		stream = zb.Bytes()
+	} else {
+		stream = orig[4:]
+	}
+	declared := []int{trueSize, 6, 40, 1000, 0xFFFFFF}[VerifChoose(5)]
+	blk := []byte{'g', byte(declared >> 16), byte(declared >> 8), byte(declared)}
+	blk = append(blk, stream...)
+	file := append([]byte{}, data[:logOff]...)
+	file = append(file, blk...)
+	file = append(file, data[fo:]...)
+	if VerifChoose(2) == 1 {
+		// a table block size large enough that the first fetch covers the whole stream
+		nfo := len(file) - footerSize(version)
+		for _, base := range []int{0, nfo} {
+			file[base+5], file[base+6], file[base+7] = 0xff, 0xff, 0xff
+		}
+	}
+	VerifAllocBudget(1<<20 + 8*(len(file)+declared))
+	readEverything(file)
+	VerifAllocEnd()
 }
